@@ -52,6 +52,27 @@ def check_C17(run):
                     TRUSTED + ["int32/float32 are boundary + random, not exhaustive (DESIGN C17 limit)"])
 
 
+def check_roundtrip(run, prop):
+    run.model("AvroSystem", "AvroSystem_thorough" if run.thorough() else "AvroSystem_quick")
+    run.model("MC_Wire", "MC_Wire_thorough" if run.thorough() else "MC_Wire_quick")
+    out, meta = run.drive(prop)
+    total, rejected, states, _ = V.judge(run.scratch, "Trace_Codec", out)
+    cov = std_cov(run, meta, total, states,
+                  "one event per (struct type, value sequence, codec, block size, flush pattern, reader kind); keys are path|feature-set of the type; distinct_nontrivial counts distinct keys")
+    return cov, rejected, out
+
+
+def check_C01(run):
+    cov, rejected, out = check_roundtrip(run, "C01")
+    return V.finish("C01", run.tier, run.seed, "model_checking", cov, rejected, out, run.t0, TRUSTED)
+
+
+def check_C02(run):
+    cov, rejected, out = check_roundtrip(run, "C02")
+    return V.finish("C02", run.tier, run.seed, "model_checking", cov, rejected, out, run.t0,
+                    TRUSTED + ["compress/flate, golang/snappy and hash/crc32 as the environment's decompression oracle"])
+
+
 CHECKS = {k[6:]: v for k, v in list(globals().items()) if k.startswith("check_C")}
 
 
